@@ -93,7 +93,7 @@ fn same(a: f64, b: f64) -> bool {
     a == b
 }
 
-fn replay(h: &Value, ops: &[Op], specs: &[Value], scale: f64, want: &MWant, rep: &mut Report) {
+fn replay(h: &Value, ops: &[Op], specs: &[Value], scale: f64, want: &MWant, rep: &mut Report, parity: usize) {
     let k = specs.len();
     rep.replays += 1;
     let prop = want.prop.as_str();
@@ -104,7 +104,9 @@ fn replay(h: &Value, ops: &[Op], specs: &[Value], scale: f64, want: &MWant, rep:
         for (step, op) in ops.iter().enumerate() {
             match op {
                 Op::Add(s, t) => {
-                    let x = tok(t, scale);
+                    // "nan" is any NaN: quiet NaNs of both signs (a total order puts the
+                    // sign-negative one below -inf)
+                    let x = if t == "nan" && (step + parity) % 2 == 1 { -f64::NAN } else { tok(t, scale) };
                     Estimate::add(&mut w[*s].mn, x);
                     Estimate::add(&mut w[*s].mx, x);
                     ghost[*s].push(t.clone());
@@ -140,7 +142,7 @@ fn replay(h: &Value, ops: &[Op], specs: &[Value], scale: f64, want: &MWant, rep:
                 Op::Clone(d, s) => {
                     // Clone::clone / Clone::clone_from alternately: the same step of the specification
                     let src = w[*s].clone();
-                    if step % 2 == 1 {
+                    if (step + parity) % 2 == 1 {
                         w[*d].mn.clone_from(&src.mn);
                         w[*d].mx.clone_from(&src.mx);
                     } else {
@@ -275,10 +277,14 @@ pub fn process_line(v: &Value, want: &MWant, rep: &mut Report) {
     if rep.nontrivial.contains(&hs) {
         rep.sample(json!({"history": h, "spec": specs}));
     }
+    // both Clone variants / both NaN signs at the complementary positions
+    let parities: &[usize] = if ops.iter().any(|o| matches!(o, Op::Clone(_, _)) || matches!(o, Op::Add(_, t) if t == "nan")) { &[0, 1] } else { &[0] };
     for &sc in &want.scales {
-        let r = std::panic::catch_unwind(std::panic::AssertUnwindSafe(|| replay(h, &ops, &specs, sc, want, &mut *rep)));
-        if r.is_err() {
-            viol(rep, &want.prop, "Min/Max", sc, h, 0, "panic", "the code under test panicked".into());
+        for &parity in parities {
+            let r = std::panic::catch_unwind(std::panic::AssertUnwindSafe(|| replay(h, &ops, &specs, sc, want, &mut *rep, parity)));
+            if r.is_err() {
+                viol(rep, &want.prop, "Min/Max", sc, h, 0, "panic", "the code under test panicked".into());
+            }
         }
     }
     for x in rep.violations.iter_mut().skip(kept_before) {
